@@ -28,7 +28,8 @@ prop("C17",
                   "not 'K non-negligible singular values' in double precision); non-negligible means > 1e-8*S[0]",
                   "EV on noiseless data weights the noise eigenvectors by 1/S[k], k >= K, which are the rounding "
                   "errors of exact zeros: the clause is asserted for EV only while these span less than 1e6 "
-                  "(S[K] <= 1e6*S[P-1], none exactly 0); beyond that one arbitrary null vector dominates and its own "
+                  "(S[K] <= 1e6*S[P-1]) and S[P-1] > 1e-100*S[0] (no 1/0, no overflow of 1/S: x = 1+5e-324j gives "
+                  "S = [2.8, 1e-323] and EV = 0 everywhere); beyond that one arbitrary null vector dominates and its own "
                   "zeros (e.g. at bin 0 for data (-1)^n, S = [12, 9e-16, 6e-16, 1.5e-31, ..., 1.4e-63]) outrank the true "
                   "peak by rounding luck -- the documented formula sum 1/lambda_k v_k v_k^H is undefined for lambda_k = 0; "
                   "MUSIC is unaffected.  Sound because EV/MUSIC lies in [S[P-1], S[K]] and the true MUSIC peaks exceed "
@@ -38,7 +39,8 @@ prop("C17",
                   "(continuous distributions) must be finite everywhere",
                   "C17.values compares sorted value multisets (axis-order free) with the docstring formula "
                   "1/sum_k |v_k^H e(f)|^2 on the NFFT grid, only for MUSIC (basis independent) and only when the "
-                  "signal/noise singular-value gap is >= 1e-3*S[0]; rtol 1e-6*S[0]/gap on 1/psd relative to P",
+                  "signal/noise singular-value gap is >= 1e-3*S[0]; per-entry rtol 1e-8*S[0]/gap on the sorted 1/psd "
+                  "(worst observed 2.8e-12*S[0]/gap in 3800 cases, margin > 1000x; structural changes give >= 1e-3)",
                   "C17.evweight: EV(f)/MUSIC(f) lies between the smallest and largest noise-subspace eigenvalue, the "
                   "eigenvalue being read as S, S^2 or S^2/(2NP) (the docstring does not say which)",
                   "rejections are ValueError (documented); an invalid criteria name is out of domain"],
@@ -270,7 +272,7 @@ def _tone_domain(ctx, case, x, tb):
     if sv[K - 1] < 1e-6 * sv[0]:
         ctx.exclude("ill-separated tones: reference S[K-1] < 1e-6*S[0]")
         return None
-    if case["method"] == "ev" and (sv[-1] == 0 or sv[K] > EV_SPAN * sv[-1]):
+    if case["method"] == "ev" and (sv[-1] <= 1e-100 * sv[0] or sv[K] > EV_SPAN * sv[-1]):
         ctx.exclude("EV weights 1/S[k>=K] are rounding noise spanning > 1e6 (or 1/0)")
         return None
     return sv
@@ -498,7 +500,7 @@ def c17_values(ctx, case):
     ctx.check(np.all(np.isfinite(psd)) and np.all(psd > 0), "MUSIC pseudo-spectrum of noisy data not finite and positive")
     got = np.sort(1.0 / np.real(psd))
     want = np.sort(exp)
-    tol = 1e-6 / gap
+    tol = 1e-8 / gap
     ctx.close(got, want, "sorted 1/psd vs sorted noise-subspace projection sum|v^H e(f)|^2 (P=%d NSIG=%d NFFT=%d)"
               % (P, nsig, nfft), rtol=tol, atol=tol * 1e-3 * float(np.max(want)))
 
